@@ -7,6 +7,7 @@ mkdir -p work evidence replays
 python3 translator/translate.py --repo /repo --out lean/BroodModel/Generated --report work/extraction_report.json
 python3 harness/gen/gen_family.py Reg4 szlh shz harness/src/gen_reg4.rs
 python3 harness/gen/gen_family.py Reg10 szlhshzslh shz harness/src/gen_reg10.rs
+python3 harness/gen/gen_family.py Reg8 szlhshzs shz harness/src/gen_reg8.rs
 for g in harness/gen/gen_*.py; do
   b=$(basename "$g" .py)
   [ "$b" = gen_family ] && continue
